@@ -39,8 +39,11 @@ MANIFEST = {
 }
 PROPERTY_FILES = ['Properties/C02.v']
 REFUTED_FILES = ['Refuted/C02_float_key.v', 'Refuted/C02_dtype_map.v']
-MODEL_FILES = ['Gen/Gen_c02.v', 'SF/IndexBij.v', 'SF/IndexBijVal.v', 'SF/IxTree.v', 'SF/IxTreeVal.v']
+MODEL_FILES = ['SF/IndexBijSpec.v', 'SF/IndexBijSpecVal.v', 'SF/IxTreeSpec.v', 'SF/IxTreeSpecVal.v',      # specification side: no generated dependency
+               'Gen/Gen_c02.v', 'SF/IndexBij.v', 'SF/IndexBijVal.v', 'SF/IxTree.v', 'SF/IxTreeVal.v']
 IMPORTS = 'Require Import SF.Prelude SF.Dtype SF.Value SF.PySlice SF.IndexBij SF.IndexBijVal SF.IxTree SF.IxTreeVal.'
+# when the model or its regenerated constants are broken, S is still evaluated (a concrete failing input can still be produced)
+IMPORTS_SPEC_ONLY = 'Require Import SF.Prelude SF.Dtype SF.Value SF.PySlice SF.IndexBijSpec SF.IndexBijSpecVal SF.IxTreeSpec SF.IxTreeSpecVal.'
 RULE = ('every case builds an index through the public interface and observes it COMPLETELY (values, iteration, reversed, len, positions, iloc[i], '
         'loc_to_iloc and `in` for held and absent probe keys, constructor / append outcome classes); M and S are evaluated in Coq on the same input. '
         'Exhaustive strata: all label sequences of length <= 2 (quick) / <= 3 (thorough) over {0, 1, True, 1.0, "a", (0,1)}; all append/reader histories '
@@ -618,7 +621,7 @@ def go_probes(rng, labels_end, extra):
     return probes[:6] + extra
 
 
-def history_case(ctx, init, ops, stratum, touch_pick=None):
+def history_case(ctx, init, ops, stratum, touch_pick=None, all_probes=False):
     '''One history, observed twice: "warm" (a reader is called after the last mutation) and "cold" (loc_to_iloc / `in` are
     the first calls after the last mutation: the regression input of the repaired finding C02-autogo-stale-positions).
     Histories with a float alias of a held position (1.0 on an auto-integer [0,1]: repaired finding C02-autogo-float-append)
@@ -627,7 +630,8 @@ def history_case(ctx, init, ops, stratum, touch_pick=None):
     auto_end, labels_end, alias_in_extend = classify_history(init, ops)
     n_end = len(labels_end)
     extra = [n_end, n_end + 1, -1, None, True, 'zz', 0.5] if auto_end else [-1, n_end, 'zz', 0.5, None, (9, 9)]
-    probes = [k for k in go_probes(ctx.rng, labels_end, extra) if not auto_end or auto_probe_class(n_end, k) == 'ok']
+    cand = (list(labels_end) + extra) if all_probes else go_probes(ctx.rng, labels_end, extra)
+    probes = [k for k in cand if not auto_end or auto_probe_class(n_end, k) == 'ok']
     tags = {'init': init[0]}
     if alias_in_extend:
         tags['finding'] = 'C02-auto-float-key'
@@ -662,6 +666,22 @@ def go_small_cases(ctx):
                 yield from history_case(ctx, init, list(ops), 'api:go-small')
         for vs in itertools.product(alphabet[:5] if ctx.tier == 'thorough' else alphabet[:3], repeat=2):
             yield from history_case(ctx, init, [('extend', list(vs))], 'api:go-small')
+
+
+def go_promotion_cases(ctx):
+    '''Auto-integer starts: k in-sequence integer appends (the index stays map-less, caches go stale), then a label that
+    forces the promotion to a real map, with NO reader in between; every label is probed afterwards.'''
+    for n0 in (0, 1, 2, 3):
+        for k in range(0, 5 if ctx.tier == 'quick' else 7):
+            for last in ('x', n0 + k + 5, 0.5, (0, 1)):
+                ops = [('append', n0 + i) for i in range(k)] + [('append', last)]
+                yield from history_case(ctx, ('auto', n0), ops, 'api:go-promotion', all_probes=True)
+                yield from history_case(ctx, ('auto', n0), ops + [('append', n0 + k), ('append', 'y')], 'api:go-promotion', all_probes=True)
+            if k:
+                ops = [('extend', [n0 + i for i in range(k)]), ('append', 'x')]
+                yield from history_case(ctx, ('auto', n0), ops, 'api:go-promotion', all_probes=True)
+                ops = [('append', n0 + i) for i in range(k)] + [('extend', ['x', 'y'])]
+                yield from history_case(ctx, ('auto', n0), ops, 'api:go-promotion', all_probes=True)
 
 
 def go_random_cases(ctx):
@@ -753,6 +773,51 @@ def derived_case(ctx, name, labels, build, expect, probes, extra=None):
     P = vl(probes)
     return Case('api:derive', desc, m=f'chk_M_derived {expect} {P} {obs}', s=f'chk_S_derived {expect} {P} {obs}',
                 tags={'derivation': name})
+
+
+def auto_derive_cases(ctx):
+    '''Derivations FROM auto-integer (map-less) sources, as the library builds them: every positional key kind, incl.
+    slices from the head with step 2 and 3; the derived index is observed completely (every held label, absent ints).'''
+    import static_frame as sf
+    R = auto_routes()
+    quick = ctx.tier == 'quick'
+    names = ['Series(values).index', 'FrameGO(array).columns', 'IndexAutoFactory'] if quick else sorted(R)
+    sizes = [0, 1, 3, 6] if quick else list(range(0, 8))
+    for name in names:
+        for n in sizes:
+            labels = list(range(n))
+            L = vl(labels)
+            probes = list(range(-1, n + 2)) + ['a']
+            ex = {'route': name, 'n': n}
+
+            def emit(dname, fn, expect, extra):
+                src = R[name](n)
+                assert src._map is None, 'route no longer yields a map-less index'
+                return derived_case(ctx, 'auto:' + dname, labels, lambda: fn(src), expect, probes, dict(ex, **extra))
+            starts = [None, 0, 1] if quick else [None, 0, 1, 2, -2]
+            stops = [None, n - 1, 2] if quick else [None, n, n - 1, 2, -1]
+            steps = [None, 2, 3, -1] if quick else [None, 1, 2, 3, 4, -1, -2]
+            for a, b, st in itertools.product(starts, stops, steps):
+                k = slice(a, b, st)
+                yield emit('iloc[slice]', lambda s, k=k: s.iloc[k], f'(vS_iloc_slice {L} {lit.slice_(k)})', {'key': repr(k)})
+            for _ in range(3 if quick else 8):
+                ps = [ctx.rng.randrange(-n - 1, n + 1) for _ in range(ctx.rng.choice([0, 1, 2, 3, n]))]
+                yield emit('iloc[list]', lambda s, ps=ps: s.iloc[ps], f'(vS_iloc_list {L} {lit.lst([lit.z(p) for p in ps])})', {'key': repr(ps)})
+                yield emit('iloc[array]', lambda s, ps=ps: s.iloc[np.array(ps, dtype=int)], f'(vS_iloc_list {L} {lit.lst([lit.z(p) for p in ps])})', {'key': repr(ps)})
+                mask = [ctx.rng.random() < 0.5 for _ in range(n)]
+                yield emit('iloc[mask]', lambda s, mask=mask: s.iloc[np.array(mask, dtype=bool)], f'(vS_iloc_mask {L} {lit.lst([lit.b(x) for x in mask])})', {'key': repr(mask)})
+                if n:
+                    ks = [ctx.rng.randrange(0, n) for _ in range(ctx.rng.choice([1, 2, 3]))]
+                    yield emit('loc[list]', lambda s, ks=ks: s.loc[ks], f'(vS_loc_list {L} {vl(ks)})', {'key': repr(ks)})
+                    dp = sorted({ctx.rng.randrange(-n, n) for _ in range(ctx.rng.choice([1, 2]))})
+                    yield emit('drop.iloc[list]', lambda s, dp=dp: s.drop.iloc[dp], f'(vS_drop_iloc {L} {lit.lst([lit.z(p) for p in dp])})', {'key': repr(dp)})
+                    sh = ctx.rng.randrange(-n - 1, n + 2)
+                    yield emit('roll', lambda s, sh=sh: s.roll(sh), f'(vS_roll {L} {lit.z(sh)})', {'shift': sh})
+            for dname, fn in (('copy', lambda s: s.copy()), ('rename', lambda s: s.rename('nm')), ('Index(ix)', lambda s: sf.Index(s)),
+                              ('IndexGO(ix)', lambda s: sf.IndexGO(s)), ('iloc[:]', lambda s: s.iloc[:]), ('drop.iloc[None]', lambda s: s._drop_iloc(None)),
+                              ('sort', lambda s: s.sort()), ('sort(desc)', lambda s: s.sort(ascending=False))):
+                expect = f'(vS_sort_int {L} false)' if dname == 'sort(desc)' else f'(Ok {L})'
+                yield emit(dname, fn, expect, {})
 
 
 def setop_case(ctx, name, labels, other, build, expect, probes):
@@ -1151,8 +1216,8 @@ def automap_oracle_cases(ctx):
                        nontrivial=n >= 2)
 
 
-STRATA = [construct_small_cases, construct_random_cases, dtype_cases, auto_cases, go_small_cases, go_random_cases, multi_key_cases,
-          derive_cases, datetime_cases, hier_small_cases, hier_random_cases, hier_derive_cases, ihgo_append_cases,
+STRATA = [construct_small_cases, construct_random_cases, dtype_cases, auto_cases, go_small_cases, go_promotion_cases, go_random_cases,
+          multi_key_cases, derive_cases, auto_derive_cases, datetime_cases, hier_small_cases, hier_random_cases, hier_derive_cases, ihgo_append_cases,
           automap_oracle_cases]
 
 
